@@ -12,9 +12,16 @@ Inside a block a probe may bind names; after every probe the context is read
 and the block is rebuilt (history replayed) as soon as it differs from the
 prior state, so that every component of the vector is taken from the stated
 context.  Import only after common.bind_repo().
+
+`in_fork(fn, arg)` runs one job in a fork of the calling process, so that whatever the
+job leaves behind in the library's process-wide state (caches, registries) cannot reach
+the next job of the same worker process.
 """
 from __future__ import annotations
 
+import os
+import pickle
+import traceback
 import types
 import typing
 
@@ -123,3 +130,38 @@ def ref_context(history):
         v, ctx, _ = rshapes.step(ctx, axes, tuple(sh))
         assert v is True, (d, sh, v)
     return ctx
+
+
+def in_fork(fn, arg):
+    """fn(arg) in a fork of this process (result pickled through a pipe): whatever fn does to the
+    library's process-wide state dies with the child.  Falls back to a plain call where there is
+    no fork."""
+    if not hasattr(os, "fork"):
+        return fn(arg)
+    r, w = os.pipe()
+    pid = os.fork()
+    if pid == 0:
+        try:
+            os.close(r)
+            try:
+                payload = ("ok", fn(arg))
+            except common.HarnessError as e:
+                payload = ("harness", str(e))
+            except BaseException:  # noqa: BLE001
+                payload = ("exc", traceback.format_exc())
+            with os.fdopen(w, "wb") as f:
+                f.write(pickle.dumps(payload))
+        finally:
+            os._exit(0)
+    os.close(w)
+    with os.fdopen(r, "rb") as f:
+        data = f.read()
+    os.waitpid(pid, 0)
+    if not data:
+        raise common.HarnessError("the forked group process died without a result")
+    tag, val = pickle.loads(data)
+    if tag == "ok":
+        return val
+    if tag == "harness":
+        raise common.HarnessError(val)
+    raise common.HarnessError(f"unexpected exception in a forked group process:\n{val}")
